@@ -99,6 +99,7 @@ type interpreter struct {
 	onceDone           map[*value]bool
 	mapIters           map[*value]*mapIterModel
 	callStack          []*ssa.Function
+	unwinding          bool
 	panicStack         []*ssa.Function // call stack at the most recent panic origin
 }
 
@@ -577,11 +578,13 @@ func callSSA(i *interpreter, caller *frame, callpos token.Pos, fn *ssa.Function,
 		panic(budgetExceeded{-1})
 	}
 	i.callStack = append(i.callStack, fn)
+	i.unwinding = false
 	defer func() {
 		i.depth--
 		if r := recover(); r != nil {
-			if i.panicStack == nil {
+			if !i.unwinding {
 				i.panicStack = append([]*ssa.Function(nil), i.callStack...)
+				i.unwinding = true
 			}
 			i.callStack = i.callStack[:len(i.callStack)-1]
 			panic(r)
